@@ -3,20 +3,30 @@ from __future__ import print_function
 
 import six
 import itertools
+from pybufrkit.errors import PyBufrKitError
 from pybufrkit.descriptors import flat_member_ids
 from pybufrkit.templatedata import FixedReplicationNode, DelayedReplicationNode
 
 __all__ = ['BufrTableDefinitionProcessor']
 
 
+def _expect(condition, message):
+    """
+    The message is not a table definition message in the supported (NCEP)
+    layout if the condition does not hold.
+    """
+    if not condition:
+        raise PyBufrKitError('Not a supported BUFR table definition message: {}'.format(message))
+
+
 class BufrTableDefinitionProcessor(object):
 
     def process(self, bufr_message):
-        assert bufr_message.n_subsets.value == 1, 'Expect only one subset for defining BUFR tables, got {}'.format(
-            bufr_message.n_subsets.value)
+        _expect(bufr_message.n_subsets.value == 1, 'Expect only one subset for defining BUFR tables, got {}'.format(
+            bufr_message.n_subsets.value))
         bufr_message.wire()
         template_data = bufr_message.template_data.value
-        assert len(template_data.decoded_nodes) == 3, 'Expect 3 sections in template data for defining BUFR tables'
+        _expect(len(template_data.decoded_nodes) == 3, 'Expect 3 sections in template data for defining BUFR tables')
         next_value = self._process_table_a_entries(
             template_data.decoded_nodes[0], template_data.decoded_values)
         b_entries = self._process_table_b_entries(
@@ -27,7 +37,7 @@ class BufrTableDefinitionProcessor(object):
 
     def _process_table_a_entries(self, decoded_node, decoded_values):
         n_repeats, is_delayed_replication = self._get_n_repeats(decoded_node, decoded_values)
-        assert flat_member_ids(decoded_node.descriptor) == [1, 2, 3]
+        _expect(flat_member_ids(decoded_node.descriptor) == [1, 2, 3], 'Unexpected members of Table A entries')
         vc = itertools.count(n_repeats * 3 + 1 if is_delayed_replication else 0)
 
         def get_decoded_values():
@@ -43,7 +53,8 @@ class BufrTableDefinitionProcessor(object):
         if is_delayed_replication:
             next_value()
 
-        assert flat_member_ids(decoded_node.descriptor) == [10, 11, 12, 13, 14, 15, 16, 17, 18, 19, 20]
+        _expect(flat_member_ids(decoded_node.descriptor) == [10, 11, 12, 13, 14, 15, 16, 17, 18, 19, 20],
+                'Unexpected members of Table B entries')
         return dict([self._process_table_b_one_entry(next_value) for ir in range(n_repeats)])
 
     def _process_table_b_one_entry(self, next_value):
@@ -64,7 +75,8 @@ class BufrTableDefinitionProcessor(object):
         if is_delayed_replication:
             next_value()
 
-        assert flat_member_ids(decoded_node.descriptor) == [10, 11, 12, 205064, 101000, 31001, 30]
+        _expect(flat_member_ids(decoded_node.descriptor) == [10, 11, 12, 205064, 101000, 31001, 30],
+                'Unexpected members of Table D entries')
 
         return dict([self._process_table_d_one_entry(next_value) for _ in range(n_repeats)])
 
@@ -78,7 +90,8 @@ class BufrTableDefinitionProcessor(object):
         )
 
     def _get_n_repeats(self, decoded_node, decoded_values):
-        assert isinstance(decoded_node, (FixedReplicationNode, DelayedReplicationNode))
+        _expect(isinstance(decoded_node, (FixedReplicationNode, DelayedReplicationNode)),
+                'Expect table entries to be replicated')
         if isinstance(decoded_node, FixedReplicationNode):
             return decoded_node.descriptor.n_repeats, False
         else:
